@@ -144,7 +144,8 @@ def init_of(state) -> tuple:
     return (tuple(sorted(state['shared'])),
             tuple(sorted((d, str(m)) for d, m in state['mode'].items())),
             tuple(sorted((d, tuple(sorted(us))) for d, us in state['dusers'].items())),
-            tuple(sorted(state['friends'])))
+            tuple(sorted(state['friends'])),
+            bool(state.get('sess', True)))
 
 
 def reason_of(transfer) -> str:
@@ -443,7 +444,8 @@ class Session:
         self.M = M
         self.loop = loop
         w = self.w
-        shared, mode, dusers, friends = init
+        shared, mode, dusers, friends = init[:4]
+        logged_in = bool(init[4]) if len(init) > 4 else True      # FALSE: started, not logged in yet
         mode, dusers = dict(mode), {d: set(us) for d, us in dusers}
         self.cfg = dict(shared=set(shared), mode={d: mode.get(d, 'everyone') for d in DIRS},
                         dusers={d: set(dusers.get(d, ())) for d in DIRS}, friends=set(friends),
@@ -460,8 +462,17 @@ class Session:
         self.net = simnet.SimNet(loop).install()
         try:
             self.server = simserver.ScriptedServer(self.net)
+            # (like the real server, the scripted one says nothing to a connection that has not logged in)
             self.server.handlers[M.AddUser.Request] = lambda s, sess, msg: [
-                M.AddUser.Response(msg.username, True, 2, UserStats(1, 1, 1, 1), 'NL')]
+                M.AddUser.Response(msg.username, True, 2, UserStats(1, 1, 1, 1), 'NL')] if sess.username else None
+
+            def peer_address(srv, sess, msg):
+                if not sess.username:
+                    return None
+                ip, port, oport = srv.addresses.get(msg.username, ('0.0.0.0', 0, 0))
+                return [M.GetPeerAddress.Response(msg.username, ip, port, obfuscated_port_amount=1 if oport else 0,
+                                                  obfuscated_port=oport)]
+            self.server.handlers[M.GetPeerAddress.Request] = peer_address
             await self.server.start()
             order = [d for d in DIRS if d in shared]
             if self.rng.random() < 0.5:
@@ -492,8 +503,13 @@ class Session:
             client.events.register(BlockListChangedEvent, self._cbs[2], priority=0)
             client.events.register(TransferRemovedEvent, self._cbs[4], priority=0)
 
+            from aioslsk.events import SessionInitializedEvent, SessionDestroyedEvent
+            self._cbs += [lambda e: self.log('session', on=True), lambda e: self.log('session', on=False)]
             await client.start()
-            await client.login()
+            if logged_in:
+                await client.login()
+            client.events.register(SessionInitializedEvent, self._cbs[5], priority=0)
+            client.events.register(SessionDestroyedEvent, self._cbs[6], priority=0)
             await client.shares.scan()
             client.events.register(ScanCompleteEvent, self._cbs[3], priority=0)
             for p in self.peers.values():
@@ -504,7 +520,7 @@ class Session:
             snap = self.index_snapshot()
             self.log('init', shared=sorted(self.cfg['shared']), mode=dict(self.cfg['mode']),
                      dusers={d: sorted(self.cfg['dusers'][d]) for d in DIRS}, friends=sorted(self.cfg['friends']),
-                     **snap)
+                     sess=client.session is not None, **snap)
             await self.battery(full=False)
             for st in steps:
                 try:
@@ -512,6 +528,8 @@ class Session:
                 except MachineryFailure:
                     raise
                 await self.settle()
+            if client.session is None:      # what is promised after a change is judged with a session on
+                await self.session_step(True)
             await self.quiesce()
             await self.battery(full=False)
             for w in self.held:
@@ -638,16 +656,18 @@ class Session:
         elif name == 'SetExcluded':
             ps, = args
             ps = {(p[0], bool(p[1])) for p in ps}
-            if ps != cfg['excluded']:
+            if ps != cfg['excluded'] and self.server_session() is not None and self.client.session is not None:
                 cfg['excluded'] = ps
                 k = self.rng.randrange(6)
                 phrases = [w.phrase(p, k + i) for i, p in enumerate(sorted(ps))]
-                self.server.session_of('me').send(M.ExcludedSearchPhrases.Response(phrases=phrases))
+                self.server_session().send(M.ExcludedSearchPhrases.Response(phrases=phrases))
                 await self.settle()
                 self.log('excluded', ps=[[p[0], p[1]] for p in sorted(ps)], **self.index_snapshot())
                 await self.battery(searches_only=True)
         elif name == 'UserMgmtTick':
             await self.wait_tick()
+        elif name == 'SessionStep':
+            await self.session_step(bool(args[0]))
         elif name in ('Cycle', 'CycleBegin'):
             # the management job runs by itself; give it the time it sleeps between two cycles
             await asyncio.sleep(0.06)
@@ -716,11 +736,33 @@ class Session:
                 out.append(f)
         return sorted(set(out)), other
 
+    def server_session(self):
+        ss = self.server.session_of('me')
+        return ss if ss is not None and not ss.closed else None
+
+    async def session_step(self, on):
+        """log in (again) / the server connection is lost"""
+        client = self.client
+        if on and client.session is None:
+            try:
+                if client.network.server_connection.state.name != 'CONNECTED':
+                    await client.network.connect_server()
+                await client.login()
+            except Exception as exc:      # the code under test raised: an observation
+                self.log('error', what=f'login:{type(exc).__name__}')
+        elif not on and client.session is not None:
+            ss = self.server_session()
+            if ss is not None:
+                ss.close('eof' if self.rng.random() < 0.5 else 'reset')
+        await self.settle()
+
     async def search(self, u, q):
         M = self.M
+        if self.server_session() is None or self.client.session is None:
+            return                      # searches come through the server
         tk = next(self.tickets)
         k = self.rng.randrange(4)
-        self.server.session_of('me').send(M.FileSearch.Response(self.w.user[u], tk, self.w.query(q, k)))
+        self.server_session().send(M.FileSearch.Response(self.w.user[u], tk, self.w.query(q, k)))
         await self.settle()
         msg = self.peers[u].search_replies.pop(tk, None)
         if msg is None:
@@ -1010,6 +1052,18 @@ SCENARIOS = {
         ('SetUsers', 'D3', frozenset({'u1', 'u2'})), ('SharesFrom', 'u1'), ('SharesFrom', 'u2'),
         ('SetUsers', 'D3', frozenset({'u2'})), ('SharesFrom', 'u1'), ('SharesFrom', 'u2'),
         ('SetBlock', 'u2', frozenset({'shares'})), ('SharesFrom', 'u2'), ('SetBlock', 'u2', frozenset()), ('SharesFrom', 'u2'))),
+    # changes made while the client runs without a session (before the login, after a loss of the server)
+    'changes-before-login': (DEFAULT_INIT + (False,), (
+        ('QueueRequest', 'u1', P_F3), ('QueueRequest', 'u2', P_F1), ('SharesFrom', 'u1'), ('SetFriend', 'u1', False),
+        ('UserMgmtTick',), ('SharesFrom', 'u1'), ('Cycle',), ('SessionStep', True), ('Cycle',), ('Quiesce',),
+        ('SessionStep', False), ('SetBlock', 'u2', frozenset({'up'})), ('UserMgmtTick',), ('Cycle',), ('SessionStep', True),
+        ('Quiesce',), ('SetMode', 'D3', 'everyone'), ('Cycle',), ('Quiesce',))),
+    'changes-while-the-server-is-lost': (DEFAULT_INIT, (
+        ('QueueRequest', 'u1', P_F3), ('QueueRequest', 'u2', P_F1), ('QueueRequest', 'u3', P_F1), ('Cycle',),
+        ('SessionStep', False), ('SetFriend', 'u1', False), ('SetMode', 'D1', 'friends'), ('UserMgmtTick',), ('Cycle',),
+        ('SetFriend', 'u3', True), ('UserMgmtTick',), ('Cycle',), ('SessionStep', True), ('Cycle',), ('Quiesce',),
+        ('SessionStep', False), ('SetFriend', 'u1', True), ('SetBlock', 'u3', frozenset({'up'})), ('UserMgmtTick',),
+        ('SessionStep', True), ('Quiesce',))),
     'rescan-one-directory': (DEFAULT_INIT, (
         ('QueueRequest', 'u1', P_F3), ('RemoveDir', 'D3'), ('Cycle',), ('AddDir', 'D3', 'friends', frozenset()), ('Cycle',),
         ('ScanDir', 'D3'), ('Cycle',))),
@@ -1034,7 +1088,7 @@ def collect(chk: Check, thorough: bool):
     # counterexamples of the models with one deviation switch in the position of the pinned code
     kf = {}
     kfs = [('MC_kf_owner.cfg', 'VisibleOnlyIfEntitledByModeAll'), ('MC_kf_excl.cfg', 'NoExcludedPhraseAll'),
-           ('MC_kf_flags.cfg', 'Convergence')]
+           ('MC_kf_flags.cfg', 'Convergence'), ('MC_kf_session.cfg', 'Convergence')]
     if thorough:
         kfs += [('MC_kf_dirreply.cfg', 'VisibleOnlyIfEntitledByModeAll'), ('MC_kf_scandir.cfg', 'Convergence')]
     for cfg, prop in kfs:
@@ -1060,6 +1114,9 @@ def collect(chk: Check, thorough: bool):
             ('Entitlement three nested directories (exhaustive)', 'MC_nest3.cfg',
              ['SetMode', 'AddDir', 'RemoveDir', 'ScanAll', 'ScanDir', 'QueueRequest', 'TransferRequest', 'CycleBegin',
               'CycleEnd'], 200 if thorough else 60),
+            ('Entitlement changes with and without a session (exhaustive)', 'MC_session.cfg',
+             ['SetMode', 'SetFriend', 'UserMgmtTick', 'SessionStep', 'QueueRequest', 'CycleBegin', 'CycleEnd'],
+             200 if thorough else 70),
             ('Entitlement finished uploads asked for again (exhaustive)', 'MC_rereq.cfg',
              ['SetMode', 'SetFriend', 'SetBlock', 'UserMgmtTick', 'QueueRequest', 'TransferRequest', 'CycleBegin',
               'CycleEnd', 'AbortsDone', 'PeerAccept', 'PeerFinish', 'PeerReject', 'UserAbort', 'UserRemove'],
